@@ -7,7 +7,7 @@
 
   * tree: `absPath_nil`, `Fs.set_set`, `dirExists_parent_of_noSlash`, `readFile_root`, `apply_creat_file`,
     `apply_write_file`, `apply_creat_noParent`;
-  * helper calls: `run_fsIsRegular`, `run_fsGetPerms`, `run_fsExists_file`, `run_fsIsRegular_file`, `run_createTemp`,
+  * helper calls: `run_fsIsRegular`, `run_fsGetPerms`, `run_fsExists_file`, `run_fsIsRegular_file`, `run_fsIsSymlink(_file)`, `run_createTemp`,
     `run_fixPermissions_writable`, `run_parseBodyM_true/_false`, `run_writeFile_existing` (`writeOps`),
     `run_permissionCallback_old`, `run_writePatchedResult_plain` (`resultOps`);
   * one section: `PlainSection` (hypotheses, the applier's verdict included), `SectionDone` (what is left behind),
@@ -85,6 +85,14 @@ theorem run_fsExists_file {s : DState} {p b : Bytes} {m : Nat} (hcwd : s.cwd = [
 theorem run_fsIsRegular_file {s : DState} {p b : Bytes} {m : Nat} (hcwd : s.cwd = [])
     (h : s.fs.lookup p = some (.file b m)) : (fsIsRegular p).run s = (.ok true, s) := by
   rw [run_fsIsRegular, absPath_nil hcwd, Fs.stat_of_file h]
+
+theorem run_fsIsSymlink (p : Bytes) (s : DState) :
+    (fsIsSymlink p).run s = (.ok (match s.fs.lookup (absPath s p) with | some (.symlink _) => true | _ => false), s) := rfl
+
+/-- a regular file is not a symbolic link (`lstat`) -/
+theorem run_fsIsSymlink_file {s : DState} {p b : Bytes} {m : Nat} (hcwd : s.cwd = [])
+    (h : s.fs.lookup p = some (.file b m)) : (fsIsSymlink p).run s = (.ok false, s) := by
+  rw [run_fsIsSymlink, absPath_nil hcwd, h]
 
 /-! ### the mutating helpers -/
 
@@ -273,7 +281,8 @@ macro_rules | `(tactic| section_run [$ls,*]) => `(tactic| (
     Bool.false_eq_true, ↓reduceIte, Bool.false_and, Bool.and_false, Bool.not_true, Bool.not_false,
     Bool.or_false, Bool.false_or, Bool.and_true, Bool.true_and,
     run_createTemp, H.noFault, H.cwd,
-    run_fsExists_file (b := bytes) (m := m), run_fsIsRegular_file (b := bytes) (m := m), H.file,
+    run_fsExists_file (b := bytes) (m := m), run_fsIsRegular_file (b := bytes) (m := m),
+    run_fsIsSymlink_file (b := bytes) (m := m), H.file,
     (fun s' => @run_fixPermissions_writable o s' p bytes m), H.writable, ne_eq, not_false_eq_true,
     absPath_nil, readFile_root (b := bytes) (m := m), H.root,
     H.pre, List.isEmpty_nil,
